@@ -213,6 +213,55 @@ let c19 op args =
      | Some bs -> "OK " ^ hb bs | None -> "ERR")
   | _ -> failwith "bad c19 op"
 
+
+(* ---- C13 ---- *)
+let c13_prim data chunks eof fail reqs =
+  let data = bytes_of_hex data in
+  let ints s = if s = "-" then [] else List.map (fun x -> nh x) (String.split_on_char ',' s) in
+  let u = { u_data = data; u_chunks = ints chunks; u_eof_with_data = (eof = "1");
+            u_fail_after = (if fail = "-" then None else Some (nh fail)) } in
+  let scope = n_of_int (List.length data) in
+  match run_reads u scope N0 scope (ints reqs) with
+  | OK l -> "OK " ^ String.concat "," (List.map hb l)
+  | Err -> "ERR" | Panic -> "PANIC"
+
+(* the stream delivers only the first [got] bytes of data although scope = len(data) *)
+let c13_read kind zh tys data got =
+  let t = ty_of tys in
+  let bs = bytes_of_hex data in
+  let scope = n_of_int (List.length bs) in
+  let rec firstn k l = if k = 0 then [] else match l with [] -> [] | x :: r -> x :: firstn (k-1) r in
+  let delivered = if got = "full" then bs else firstn (int_of_n (nh got)) bs in
+  if kind = "view" then
+    (match view_deserialize_scoped zh t delivered scope with
+     | OK n -> "OK " ^ rs hb (ser_node t n)
+     | Err -> "ERR" | Panic -> "PANIC")
+  else
+    (let (st, d) = new_reader delivered scope in
+     match flat_dec t CFresh st d with
+     | OK (((v, _), _), _) -> "OK " ^ rs hb (flat_enc t v)
+     | Err -> "ERR" | Panic -> "PANIC")
+
+let c13_write kind zh tys vals budget =
+  let t = ty_of tys and v = val_of vals in
+  let enc = if kind = "view" then
+      (match from_val zh t v with OK n -> ser_node t n | Err -> Err | Panic -> Panic)
+    else flat_enc t v in
+  match enc with
+  | OK bs ->
+    let (w, ok) = ew_write_all { w_budget = Some (nh budget); w_accepted = []; w_n = N0 } [bs] in
+    Printf.sprintf "err=%s accepted=%s written=%s" (show_bool (not ok)) (hb w.w_accepted) (hn w.w_n)
+  | Err -> "enc=ERR" | Panic -> "enc=PANIC"
+
+(* ---- C20 ---- *)
+let c20 zh tys data =
+  let t = ty_of tys in
+  let bs = bytes_of_hex data in
+  let (r, a) = view_deserialize_a zh t bs in
+  let len = n_of_int (List.length bs) in
+  Printf.sprintf "res=%s malloc=%s bound=%s" (match r with OK _ -> "OK" | Err -> "ERR" | Panic -> "PANIC")
+    (hn a) (hn (N.add (N.mul (perbyte t) len) (foot t)))
+
 let dispatch set_cfg cur_h cur_zh (op : string) (args : string list) : string =
   match op, args with
   | "c01", [cfg; t; v; route] -> set_cfg cfg; c01 !cur_h !cur_zh cfg t v route
@@ -224,5 +273,12 @@ let dispatch set_cfg cur_h cur_zh (op : string) (args : string list) : string =
   | "c09", [t; v; prev] -> c09 t v prev
   | "c10", [t; data] -> c10 t data
   | "c17", [t; v] -> set_cfg "sha"; c17 !cur_h !cur_zh t v
+  | "c13p", [data; chunks; eof; fail; reqs] -> c13_prim data chunks eof fail reqs
+  | "c13r", [kind; t; data; got] -> set_cfg "sha"; c13_read kind !cur_zh t data got
+  | "c13w", [kind; t; v; budget] -> set_cfg "sha"; c13_write kind !cur_zh t v budget
+  | "c20", [t; data] -> set_cfg "sha"; c20 !cur_zh t data
+  | "hist", [cfg; t; v; route; ops] -> set_cfg cfg; Hist.run_hist !cur_h !cur_zh t v route ops
+  | "c12", [cfg; t; v; gs; ope] -> set_cfg cfg; Hist.c12 !cur_h !cur_zh t v gs ope
+  | "c11", [tree; op; g; expand; vtree] -> set_cfg "sha"; Hist.c11 !cur_h !cur_zh tree op g expand vtree
   | ("umt" | "umj" | "uut" | "uuj" | "u256ut" | "u256uj" | "hexm" | "hexu"), _ -> c19 op args
   | _ -> failwith ("unknown op " ^ op)
